@@ -119,6 +119,7 @@ theorem demoI_laws : Laws demoI (fun _ => True) where
   reshape_reshape := by intros; rfl
   reshape_same := by intros; rfl
   reshape_pw := by intros; rfl
+  reshape_pw_sc := by intros; rfl
   reshape_cast := by intros; rfl
   reduce_transpose := by intros; rfl
 
